@@ -83,10 +83,10 @@ def run(ck):
     # allocation-free Kani harnesses under each feature set
     hs = []
     for feat in ('nostd', 'alloc', 'default'):
-        hs += [engb.H('c03_lookup_n4', cap=1200, features=feat, playback=False, meaning=f'table lookup vs reference, features={feat}'),
-               engb.H('c14_eq_ord', cap=600, features=feat, meaning=f'DateTime equality/ordering, features={feat}'),
-               engb.H('c13_ref_fixed_or_none', cap=1500, features=feat, meaning=f'borrowed zone constructor vs spec, features={feat}'),
-               engb.H('c12_insertions', cap=1500, features=feat, meaning=f'leap conversions, features={feat}')]
+        hs += [engb.H('c03_lookup_n4', cap=1200, features=feat, playback=True, meaning=f'table lookup vs reference, features={feat}'),
+               engb.H('c14_eq_ord', cap=600, features=feat, playback=True, meaning=f'DateTime equality/ordering, features={feat}'),
+               engb.H('c13_ref_fixed_or_none', cap=1500, features=feat, playback=True, meaning=f'borrowed zone constructor vs spec, features={feat}'),
+               engb.H('c12_insertions', cap=1500, features=feat, playback=True, meaning=f'leap conversions, features={feat}')]
         if not quick:
             hs += [engb.H('c05_table_n1', cap=2400, features=feat, meaning=f'buffer search vs lookup, features={feat}'), engb.H('c17_buffer_n1', cap=2400, features=feat, meaning=f'buffer search for every buffer size, features={feat}')]
     if quick:
